@@ -2,12 +2,14 @@
 
 use crate::exec::{ExecOpts, RunResult};
 use crate::gen::{self, GenCfg, Mix, Shape};
-use crate::oracle::{self, LinStats, Violation};
-use crate::program::Program;
+use crate::oracle::{self, IterStats, LinStats, ResizeStats, Violation};
+use crate::orch::Agg;
+use crate::program::*;
 use crate::rng::Rng;
-use crate::sched::RunSetup;
+use crate::sched::{RunSetup, Strategy, MAXT};
+use crate::types::HashKind;
 
-pub const SIM_PROPS: [&str; 13] = ["C01", "C03", "C04", "C05", "C06", "C07", "C08", "C10", "C11", "C13", "C15", "C12", "C18"];
+pub const SIM_PROPS: [&str; 13] = ["C01", "C03", "C04", "C05", "C06", "C07", "C08", "C10", "C11", "C12", "C13", "C14", "C18"];
 
 pub struct Plan {
     pub program: Program,
@@ -15,40 +17,328 @@ pub struct Plan {
     pub opts: ExecOpts,
 }
 
-pub fn gencfg(prop: &str, tier: &str) -> GenCfg {
+pub fn implemented(prop: &str) -> bool {
+    SIM_PROPS.contains(&prop)
+}
+
+pub fn gencfg(prop: &str, tier: &str, rng: &mut Rng) -> GenCfg {
     let mut g = GenCfg::base();
     let thorough = tier == "thorough";
+    if thorough {
+        g.threads = (2, 5);
+        g.ops = (2, 9);
+        g.hot_keys = (1, 6);
+    }
+    let everything = Mix {
+        get: 3,
+        contains: 1,
+        getkv: 2,
+        insert: 5,
+        try_insert: 2,
+        remove: 4,
+        remove_entry: 2,
+        compute_replace: 2,
+        compute_inc: 1,
+        compute_remove: 2,
+        retain: 1,
+        retain_force: 1,
+        clear: 1,
+        reserve: 1,
+        len: 1,
+        iter_all: 1,
+        iter_step: 3,
+        extend: 1,
+    };
     match prop {
         "C01" => {
             g.mix = Mix::per_key();
-            if thorough {
-                g.threads = (2, 5);
-                g.ops = (2, 9);
-                g.hot_keys = (1, 6);
+        }
+        "C03" | "C04" => {
+            g.mix = everything;
+            g.pressure = true;
+            g.hold_guard = 70;
+            g.allow_set = prop == "C04";
+        }
+        "C05" => {
+            g.mix = everything;
+        }
+        "C06" => {
+            g.mix = Mix::per_key();
+            g.mix.insert = 8;
+            g.mix.remove = 8;
+            g.mix.compute_remove = 2;
+            g.shapes = vec![Shape::Tree, Shape::TreeShrunk, Shape::AlmostTree, Shape::TreeAtThreshold];
+            g.hot_keys = (3, 8);
+            g.ops = (3, 10);
+            g.allow_set = false;
+        }
+        "C07" => {
+            g.mix = Mix::zero();
+            g.mix.iter_step = 10;
+            g.mix.iter_all = 2;
+            g.mix.insert = 5;
+            g.mix.remove = 3;
+            g.mix.compute_remove = 1;
+            g.mix.compute_replace = 1;
+            g.mix.reserve = 1;
+            g.swarm = false;
+            g.ops = (3, 10);
+            g.shapes = vec![Shape::Plain, Shape::AtThreshold, Shape::AtThreshold, Shape::Tiny, Shape::Tiny, Shape::Tree, Shape::TreeShrunk, Shape::AlmostTree, Shape::TreeAtThreshold];
+        }
+        "C08" => {
+            g.mix = Mix::zero();
+            g.mix.compute_inc = 10;
+            g.mix.compute_replace = 2;
+            g.mix.compute_remove = 1;
+            g.mix.insert = 2;
+            g.mix.remove = 1;
+            g.mix.get = 1;
+            g.hot_keys = (1, 3);
+            g.ops = (2, 8);
+            g.allow_set = false;
+            if rng.chance(1, 2) {
+                // pure counters: closed form applies
+                g.mix = Mix::zero();
+                g.mix.compute_inc = 10;
+                g.mix.get = 1;
+                g.swarm = false;
+                g.shapes = vec![Shape::Plain, Shape::AtThreshold, Shape::Tree, Shape::TreeShrunk, Shape::AlmostTree];
             }
+        }
+        "C10" => {
+            g.mix = Mix::zero();
+            g.mix.insert = 10;
+            g.mix.try_insert = 2;
+            g.mix.reserve = 2;
+            g.mix.remove = 2;
+            g.mix.compute_remove = 1;
+            g.mix.clear = 1;
+            g.mix.get = 1;
+            g.mix.extend = 1;
+            g.shapes = vec![Shape::AtThreshold, Shape::AtThreshold, Shape::Tiny, Shape::Tiny, Shape::TreeAtThreshold, Shape::Unallocated];
+            g.threads = (2, 5);
+            g.hot_keys = (3, 8);
+            g.ops = (2, 8);
+        }
+        "C11" => {
+            g.mix = everything;
+            g.mix.iter_step = 1;
+            g.shapes = vec![Shape::Tree, Shape::Tree, Shape::TreeShrunk, Shape::AlmostTree, Shape::Unallocated, Shape::Unallocated, Shape::AtThreshold, Shape::Tiny, Shape::TreeAtThreshold];
+            g.threads = (2, 5);
+        }
+        "C13" => {
+            g.mix = Mix::zero();
+            g.mix.retain = 5;
+            g.mix.retain_force = 3;
+            g.mix.insert = 6;
+            g.mix.remove = 2;
+            g.mix.compute_replace = 2;
+            g.mix.get = 1;
+            g.swarm = false;
+            g.allow_set = false;
+            g.hot_keys = (1, 4);
+        }
+        "C14" => {
+            g.mix = Mix::zero();
+            g.mix.remove = 5;
+            g.mix.remove_entry = 2;
+            g.mix.compute_remove = 5;
+            g.mix.retain = 1;
+            g.mix.retain_force = 1;
+            g.mix.clear = 1;
+            g.mix.get = 2;
+            g.mix.iter_all = 1;
+            g.shapes = vec![Shape::AtThreshold, Shape::Plain, Shape::Tree, Shape::TreeShrunk, Shape::TreeAtThreshold, Shape::Tiny];
+            g.allow_set = true;
         }
         _ => {}
     }
-    let _ = Shape::Plain;
     g
 }
 
-/// Derives everything about run `index` of a check from (seed, index).
-pub fn plan(prop: &str, tier: &str, run_seed: u64) -> Plan {
+fn base_plan(prop: &str, tier: &str, run_seed: u64) -> Plan {
     let mut rng = Rng::new(run_seed);
-    let gc = gencfg(prop, tier);
+    let mut crng = rng.fork(3);
+    let gc = gencfg(prop, tier, &mut crng);
     let mut prng = rng.fork(1);
     let program = gen::gen_program(&mut prng, &gc);
     let mut srng = rng.fork(2);
-    let stall_pct = match prop {
-        "C01" => 15,
-        _ => 10,
+    let (stall_pct, spurious) = match prop {
+        "C01" => (15, false),
+        "C11" => (25, true),
+        "C10" | "C07" => (20, false),
+        _ => (10, false),
     };
-    let setup = gen::gen_setup(&mut srng, run_seed, &program, stall_pct, false);
-    Plan {
-        program,
-        setup,
-        opts: ExecOpts::default(),
+    let setup = gen::gen_setup(&mut srng, run_seed, &program, stall_pct, spurious);
+    let mut opts = ExecOpts::default();
+    if prop == "C06" {
+        opts.lookup_cost = true;
+    }
+    Plan { program, setup, opts }
+}
+
+/// The reader operations C12 speaks about.
+fn c12_reader_ops(rng: &mut Rng, keys: &[u32]) -> Vec<Op> {
+    let mut ops = Vec::new();
+    let n = rng.range(1, 4);
+    for _ in 0..n {
+        let k = *rng.pick(keys);
+        ops.push(match rng.below(7) {
+            0 => Op::Get(k),
+            1 => Op::GetKV(k),
+            2 => Op::Contains(k),
+            3 => Op::IterAll(IterKind::Iter),
+            4 => Op::IterAll(*rng.pick(&[IterKind::Keys, IterKind::Values])),
+            5 => Op::Len,
+            _ => Op::Get(k),
+        });
+    }
+    ops
+}
+
+/// All plans of one run index. Most properties have exactly one; the enumerating properties
+/// (C12: stall point of the writer, C18: which callback panics) first execute a dry run through
+/// `dry` to learn how many points there are and then return one plan per point.
+pub fn plans(prop: &str, tier: &str, run_seed: u64, dry: &mut dyn FnMut(&Plan) -> RunResult) -> Vec<Plan> {
+    match prop {
+        "C12" => {
+            let mut rng = Rng::new(run_seed);
+            let mut gc = GenCfg::base();
+            gc.mix = Mix {
+                insert: 6,
+                remove: 4,
+                remove_entry: 1,
+                compute_replace: 1,
+                compute_remove: 2,
+                clear: 1,
+                reserve: 1,
+                try_insert: 1,
+                extend: 1,
+                ..Mix::zero()
+            };
+            gc.threads = (1, 1);
+            gc.ops = (1, 2);
+            gc.hot_keys = (2, 5);
+            gc.hold_guard = 0;
+            gc.allow_set = true;
+            gc.swarm = false;
+            let mut prng = rng.fork(1);
+            let mut program = gen::gen_program(&mut prng, &gc);
+            let mut keys: Vec<u32> = crate::exec::universe(&program);
+            if keys.is_empty() {
+                keys.push(1);
+            }
+            keys.push(keys[0] + 1000);
+            let two_writers = tier == "thorough" && rng.chance(1, 3);
+            if two_writers {
+                let mut p2 = gen::gen_program(&mut prng, &gc);
+                program.threads.push(p2.threads.remove(0));
+                program.cfg.facade.push(Facade::Guarded);
+            }
+            let reader = c12_reader_ops(&mut rng, &keys);
+            program.threads.push(reader);
+            program.cfg.facade.push(*rng.pick(&[Facade::Guarded, Facade::Pinned]));
+            let reader_t = program.threads.len() - 1;
+            let mk = |stall: Option<(usize, u64)>, stall2: Option<u64>| -> Plan {
+                let mut s = RunSetup::new(run_seed);
+                // writers first (highest priority), reader last: the reader runs exactly when the
+                // writers are stalled
+                let mut prio = [0u32; MAXT];
+                for t in 0..MAXT {
+                    prio[t] = 1000 - t as u32;
+                }
+                s.strat = Strategy::Pct { prio, points: vec![], low: 500 };
+                s.faults.stall_thread_at = stall;
+                if let Some(c) = stall2 {
+                    s.faults.stall_at.push(c);
+                }
+                s.forbid_block[reader_t] = true;
+                s.own_step_bound[reader_t] = 3000;
+                Plan { program: program.clone(), setup: s, opts: ExecOpts::default() }
+            };
+            let dry_plan = mk(None, None);
+            let r = dry(&dry_plan);
+            let n = r.outcome.own_steps[0];
+            let mut out = Vec::new();
+            if two_writers {
+                // second writer stalled at a random clock while the first is stalled at point i
+                let total = r.outcome.clock;
+                for i in 1..=n {
+                    let c = 2 + rng.below(total.max(3) - 2);
+                    out.push(mk(Some((0, i)), Some(c)));
+                }
+            } else {
+                for i in 1..=n {
+                    out.push(mk(Some((0, i)), None));
+                }
+            }
+            out
+        }
+        "C18" => {
+            let mut rng = Rng::new(run_seed);
+            let mut gc = GenCfg::base();
+            gc.mix = Mix {
+                compute_replace: 4,
+                compute_inc: 2,
+                compute_remove: 3,
+                retain: 3,
+                retain_force: 2,
+                insert: 3,
+                remove: 2,
+                get: 1,
+                iter_all: 1,
+                ..Mix::zero()
+            };
+            gc.threads = (1, 3);
+            gc.ops = (2, 6);
+            gc.hot_keys = (2, 5);
+            gc.swarm = false;
+            gc.shapes = vec![Shape::Plain, Shape::Plain, Shape::Tree, Shape::TreeShrunk, Shape::AlmostTree, Shape::AtThreshold];
+            let mut prng = rng.fork(1);
+            let program = gen::gen_program(&mut prng, &gc);
+            let mut srng = rng.fork(2);
+            let base = gen::gen_setup(&mut srng, run_seed, &program, 0, false);
+            let mk = |panic_at: Option<u64>| -> Plan {
+                let mut s = RunSetup::new(run_seed);
+                s.strat = base.strat.clone();
+                s.faults = base.faults.clone();
+                Plan { program: program.clone(), setup: s, opts: ExecOpts { panic_at, ..ExecOpts::default() } }
+            };
+            let r = dry(&mk(None));
+            let c = r.callbacks;
+            (1..=c).map(|i| mk(Some(i))).collect()
+        }
+        _ => vec![base_plan(prop, tier, run_seed)],
+    }
+}
+
+/// Single plan (first of the index) for tools that only want to look at a program.
+pub fn plan(prop: &str, tier: &str, run_seed: u64) -> Plan {
+    match prop {
+        "C12" | "C18" => {
+            let mut dry = |p: &Plan| {
+                let s = clone_setup(&p.setup);
+                crate::exec::execute(&p.program, s, &p.opts)
+            };
+            plans(prop, tier, run_seed, &mut dry).into_iter().next().unwrap_or_else(|| base_plan("C01", tier, run_seed))
+        }
+        _ => base_plan(prop, tier, run_seed),
+    }
+}
+
+pub fn clone_setup(s: &RunSetup) -> RunSetup {
+    RunSetup {
+        seed: s.seed,
+        strat: s.strat.clone(),
+        faults: s.faults.clone(),
+        replay: s.replay.clone(),
+        budget: s.budget,
+        fair_bound: s.fair_bound,
+        ncpu: s.ncpu,
+        min_stride: s.min_stride,
+        log_access: s.log_access,
+        forbid_block: s.forbid_block,
+        own_step_bound: s.own_step_bound,
     }
 }
 
@@ -59,6 +349,32 @@ pub struct JudgeStats {
     pub lin_states: usize,
     pub lin_max_ops: usize,
     pub lin_skipped: usize,
+    pub extra: std::collections::BTreeMap<String, u64>,
+}
+
+impl JudgeStats {
+    fn bump(&mut self, k: &str, n: u64) {
+        *self.extra.entry(k.to_string()).or_insert(0) += n;
+    }
+    fn max(&mut self, k: &str, n: u64) {
+        let e = self.extra.entry(k.to_string()).or_insert(0);
+        *e = (*e).max(n);
+    }
+}
+
+fn run_lin(p: &Program, r: &RunResult, js: &mut JudgeStats) -> Vec<Violation> {
+    run_lin_f(p, r, js, oracle::Flavour::Point)
+}
+
+fn run_lin_f(p: &Program, r: &RunResult, js: &mut JudgeStats, fl: oracle::Flavour) -> Vec<Violation> {
+    let mut ls = LinStats { keys_checked: 0, ops_checked: 0, states_explored: 0, max_ops_per_key: 0, skipped_keys: 0 };
+    let out = oracle::linearizability(p, r, &mut ls, fl);
+    js.lin_keys += ls.keys_checked;
+    js.lin_ops += ls.ops_checked;
+    js.lin_states += ls.states_explored;
+    js.lin_max_ops = js.lin_max_ops.max(ls.max_ops_per_key);
+    js.lin_skipped += ls.skipped_keys;
+    out
 }
 
 /// The oracles of one property applied to one run.
@@ -69,35 +385,98 @@ pub fn judge(prop: &str, p: &Program, r: &RunResult, opts: &ExecOpts, js: &mut J
         return out;
     }
     out.extend(oracle::basic(r, opts.panic_at.is_some()));
-    let mut ls = LinStats {
-        keys_checked: 0,
-        ops_checked: 0,
-        states_explored: 0,
-        max_ops_per_key: 0,
-        skipped_keys: 0,
-    };
     match prop {
-        "C01" => {
-            out.extend(oracle::linearizability(p, r, &mut ls));
+        "C01" => out.extend(run_lin(p, r, js)),
+        "C03" => {
+            out.extend(oracle::memory(r));
+            js.bump("references_checked", r.refs_checked);
+        }
+        "C04" => {
+            out.extend(oracle::drops(r));
+            js.bump("instances", r.insts.len() as u64);
+            js.bump("instances_cloned_by_map", r.insts.iter().filter(|i| i.parent != crate::types::NONE).count() as u64);
+            js.bump("instances_dropped_during_run", r.insts.iter().filter(|i| i.dropped_in_run).count() as u64);
+            js.bump("refused_values_returned", r.history.iter().filter(|h| matches!(h.res, crate::exec::Res::TryErr { .. })).count() as u64);
+            for h in &r.history {
+                if let crate::exec::Res::TryErr { back_ok: false, .. } = h.res {
+                    out.push(Violation { class: "refused-value-damaged".into(), detail: format!("t{} op{} {:?}: the refused value did not come back intact", h.thread, h.idx, h.op) });
+                }
+            }
+        }
+        "C05" => out.extend(oracle::quiescent_consistency(p, r)),
+        "C06" => {
+            out.extend(oracle::trees(r));
+            let mut checked = 0usize;
+            let mut max_seen = 0u64;
+            out.extend(oracle::lookup_cost(p, r, &mut checked, &mut max_seen));
+            js.bump("tree_lookups_cost_checked", checked as u64);
+            js.max("max_comparisons_in_a_tree_lookup", max_seen);
+            if let Some(rep) = &r.quiescent.inspect {
+                js.bump("tree_bins_validated", rep.tree_sizes.len() as u64);
+                js.max("largest_tree_bin", rep.tree_sizes.iter().copied().max().unwrap_or(0) as u64);
+            }
+        }
+        "C07" => {
+            out.extend(run_lin_f(p, r, js, oracle::Flavour::Iter));
+            let mut st = IterStats { iterations: 0, complete: 0, stable_keys_checked: 0, overlapped_by_resize: 0, overlapped_by_writes: 0 };
+            out.extend(oracle::iterators(p, r, &mut st));
+            js.bump("iterations", st.iterations as u64);
+            js.bump("iterations_complete", st.complete as u64);
+            js.bump("iterations_overlapped_by_resize", st.overlapped_by_resize as u64);
+            js.bump("iterations_overlapped_by_writes", st.overlapped_by_writes as u64);
+            js.bump("stable_keys_checked", st.stable_keys_checked as u64);
+        }
+        "C08" => {
+            out.extend(run_lin(p, r, js));
+            let mut c = 0usize;
+            out.extend(oracle::counters(p, r, &mut c));
+            js.bump("pure_counter_keys_checked", c as u64);
+        }
+        "C10" => {
+            let mut rs = ResizeStats::default();
+            out.extend(oracle::resizes(r, &mut rs));
+            js.bump("resize_generations", rs.generations as u64);
+            js.bump("generations_with_2_or_more_helpers", rs.multi_helper_generations as u64);
+            js.max("max_helpers_in_one_resize", rs.max_helpers as u64);
+            // no leftover resize state (subset of C05 that C10 states itself)
+            if let Some(rep) = &r.quiescent.inspect {
+                for e in &rep.wellformed_errors {
+                    if e.contains("next_table") || e.contains("size_ctl") || e.contains("transfer_index") || e.contains("forwarding marker") {
+                        out.push(Violation { class: "leftover-resize-state".into(), detail: e.clone() });
+                    }
+                }
+            }
+        }
+        "C11" => {}
+        "C12" => {
+            out.extend(run_lin(p, r, js));
+            out.extend(run_lin_f(p, r, js, oracle::Flavour::Iter));
+        }
+        "C13" => {
+            out.extend(run_lin(p, r, js));
+        }
+        "C14" => {
+            out.extend(oracle::no_growth_on_removal(p, r));
+        }
+        "C18" => {
+            out.extend(run_lin(p, r, js));
+            out.extend(oracle::quiescent_consistency(p, r));
+            out.extend(oracle::panic_propagation(r, opts));
         }
         _ => {}
     }
-    js.lin_keys += ls.keys_checked;
-    js.lin_ops += ls.ops_checked;
-    js.lin_states += ls.states_explored;
-    js.lin_max_ops = js.lin_max_ops.max(ls.max_ops_per_key);
-    js.lin_skipped += ls.skipped_keys;
     out
 }
 
-pub fn implemented(prop: &str) -> bool {
-    matches!(prop, "C01")
-}
-
 pub fn runs_for(prop: &str, tier: &str) -> u64 {
-    match (prop, tier) {
-        (_, "thorough") => 1_200_000,
-        _ => 120_000,
+    let quick = match prop {
+        "C12" => 3_000,
+        "C18" => 20_000,
+        _ => 400_000,
+    };
+    match tier {
+        "thorough" => quick * 25,
+        _ => quick,
     }
 }
 
@@ -122,8 +501,10 @@ pub fn probe_relevant(_prop: &str, i: usize) -> bool {
 }
 
 pub fn rule_text(prop: &str) -> String {
-    let common = "one evaluation = one simulated run: a program (config + per-thread operation lists) and a schedule/fault plan, all derived from (VERIF_SEED, run index); non-trivial = at least one context switch was forced inside an operation (between two seams of flurry); distinct = distinct fingerprint of the (clock, chosen thread) sequence of all context switches, counted as a set across all workers";
+    let common = "one evaluation = one simulated run: a program (configuration + per-thread operation lists) and a schedule/fault plan, all derived from (VERIF_SEED, run index); non-trivial = at least one context switch was forced inside an operation (between two seams of flurry); distinct = distinct fingerprint of the (clock, chosen thread) sequence of all context switches, counted as a set across all workers";
     match prop {
+        "C12" => format!("{}; enumeration: for every generated (state, writer operations, reader operations) scenario the writer is first run alone to count its N decision points, then one run per i in 1..=N stalls it for ever at its i-th point and runs the reader alone", common),
+        "C18" => format!("{}; enumeration: for every generated scenario a dry run counts the c callback invocations, then one run per i in 1..=c makes the i-th invocation panic", common),
         _ => common.to_string(),
     }
 }
@@ -141,4 +522,7 @@ pub fn special_check(_prop: &str, _tier: &str) -> Option<i32> {
     None
 }
 
-pub fn extra_stats(_prop: &str, _p: &Program, _r: &RunResult, _agg: &mut crate::orch::Agg) {}
+pub fn extra_stats(_prop: &str, _p: &Program, _r: &RunResult, _agg: &mut Agg) {}
+
+#[allow(dead_code)]
+fn _unused(_: HashKind) {}
